@@ -66,6 +66,7 @@ type Job struct {
 	Stubs           map[string]interceptFn
 	OneShot         bool // non-incremental solving (floating point)
 	DiffSamples     int // number of passing paths whose models are replayed natively (must pass there too)
+	NoDiff          bool // passing paths are not replayed natively (the harness depends on a symbolic clock or schedule)
 	ReplayInstr     []SrcInsert // textual insertions into copies of repository files for the native replay
 	ReplayTest      string   // native test (in the harness dir's *_test.go files) that replays a model of this job
 	CutCalls        []string // calls to functions whose name ends with one of these end the path as outside the unit
